@@ -294,12 +294,15 @@ Proof.
 Qed.
 
 (* ---- the simulation object: mesh, boundary conditions, cache ------ *)
-Inductive bc := BLag (pt : Z) | BDir (pt : Z) (ndofs : nat).
+Inductive bc := BLag (pt : Z) | BDir (pt : Z) (dofs : list Z).
 
 Definition count_lag (pt : Z) (l : list bc) : nat :=
   length (filter (fun b => match b with BLag p => p =? pt | _ => false end) l).
-Definition count_dir (pt : Z) (l : list bc) : nat :=
-  fold_right (fun b acc => match b with BDir p n => if p =? pt then (n + acc)%nat else acc | _ => acc end) O l.
+(* Bc_dofs_Dirichlet(problemType): the dofs of every Dirichlet condition of the problem, in entry order *)
+Definition dir_dofs (pt : Z) (l : list bc) : list Z :=
+  flat_map (fun b => match b with BDir p ds => if p =? pt then ds else [] | _ => [] end) l.
+(* np.unique(Bc_dofs_Dirichlet).size : one multiplier line per DISTINCT constrained dof *)
+Definition count_dir (pt : Z) (l : list bc) : nat := length (usort (dir_dofs pt l)).
 (* _Bc_Lagrange_dim *)
 Definition lag_dim (pt : Z) (l : list bc) : Z :=
   let nl := count_lag pt l in
